@@ -78,6 +78,16 @@ def _case(draw):
         ]))
     else:
         d["ode_mod_terms"] = []
+    if d["fmt"] in ("kida", "umist", "naunet") and not d["allowed"] and draw(st.integers(0, 3)) == 0:
+        if not any(x == "\\*" for x in d["pseudo"]):
+            d["pseudo"] = list(d["pseudo"]) + ["\\*"]
+        # an excited species (the marker is the pseudo-element '\*') that a modifier term depends on: H2* relaxes to H2 in the network,
+        # the user pumps H2* from H2 and lets H form from H2*
+        code = {"kida": 3, "umist": "NN", "naunet": 100}[d["fmt"]]
+        nlines = len([ln for ln in d["text"].split("\n") if ln.strip()])
+        d["text"] += c17.L.encode(c17._lr(d["fmt"], ["H2*", "H"], ["H2", "H"], code, 900 + nlines), {"padded": True}) + "\n"
+        d["ode_mod_terms"] = list(d["ode_mod_terms"]) + [["H2*", "1.0e-11 * nH", ["H2"]], ["H", "2.0e-9", ["H2*"]]]
+        d["has_excited"] = True
     # several terms in one option are separated by ';' - a trailing ';' or an empty item between two separators (`a;;b`) adds no term
     d["ode_split"] = draw(st.sampled_from(["one-option", "one-per-term", "one-option-trailing-separator", "one-option-empty-item"]))
     d["spacing"] = {k: draw(st.sampled_from(["", " "])) for k in ("list", "table", "kv", "terms")}
@@ -613,6 +623,8 @@ def check_case(case, tier):
             labels.append(f"table-{k}")
     if d["ode_mod_terms"]:
         labels.append(f"ode-modifier-{d['ode_split']}")
+    if d.get("has_excited"):
+        labels.append("modifier-over-an-excited-species")
     if d["bulk"] != "@":
         labels.append("non-default-bulk-prefix")
     if any(d["spacing"].values()):
